@@ -38,9 +38,15 @@ Definition Sl := OSelect.
 Definition Sa := OSelectAll.
 Definition Ty := ByType.
 Definition Nm := ByName.
+(* a Type object of a second TypeSystem: its __init__ made the predefined types, then `user` was created on it *)
+Definition Fo (user : list (tname * tname)) (t : tname) : tsel := ByForeign (builtin_types ++ user) t.
 
 (* the three types every exhaustive short history starts from *)
 Definition ex_pre : list op := [CT "t.A" "uima.tcas.Annotation"; CT "t.B" "t.A"; CT "u.A" "uima.cas.TOP"].
+
+(* the second type system of the exhaustive short histories *)
+Definition ex_fu : list (tname * tname) :=
+  [("t.A", "uima.tcas.Annotation"); ("t.B", "t.A"); ("u.A", "uima.cas.TOP"); ("t.D", "t.B"); ("D", "u.A")].
 
 Inductive iobs := IDone | IErr (e : err) | IHandle (h : nat) | IList (l : list (tname * list (Z * Z) * list Z)).
 Definition ID := IDone.
